@@ -45,7 +45,7 @@ def const_value(o):
     byte strings -> ('bytes', str-of-latin1); fn items -> ('fn', path, full);
     promoted -> ('promoted', owner, idx); unit -> ('unit',); else ('raw', s)."""
     ty = o["ty"]
-    s = o["s"]
+    s = o.get("value") or o["s"]      # a named const item carries its evaluated value
     if s.startswith("const "):
         s = s[6:]
     if "fn" in o:
@@ -860,6 +860,15 @@ class PathEval:
                 site = None if is_pure(path) else bb
                 val = ("call", path, tuple(f.get("gargs", ())), args, site)
                 folded = _fold_try(path, args, tuple(f.get("gargs", ())))
+                if folded is None and len(args) == 1 and path.endswith("::len") and ("[T]>::len" in path or "[u8]>::len" in path or "str>::len" in path):
+                    a0 = args[0]
+                    while isinstance(a0, tuple) and a0 and a0[0] in ("ref", "deref"):
+                        a0 = a0[1]
+                    if isinstance(a0, tuple) and a0 and a0[0] == "const":
+                        if isinstance(a0[2], tuple) and a0[2] and a0[2][0] == "bytes":
+                            folded = ("const", "usize", len(a0[2][1]))          # the length of a constant byte string
+                        elif isinstance(a0[2], str):
+                            folded = ("const", "usize", len(a0[2].encode("utf-8")))
                 if folded is not None and t["target"] is not None:
                     # `?` applied to a literal Ok/Err/Some/None (arises when a fallible helper was inlined): no call, no event
                     self.assign(st, t["dest"], folded, bb, events)
